@@ -218,6 +218,10 @@ def as_completed_plans(chk, rnd):
     plans.append((f'deadline call {i} of worker 1', {(0, i): 'deadline'}, {}))
     plans.append((f'response-lost call {i} of worker 2', {(1, i): 'response_lost'}, {}))
   plans.append(('die at call 2 of worker 2', {(1, 2): 'die'}, dict(call_timeout=0.0, threshold=70.0)))
+  # the same death, announced (the worker's death notice reaches the registry at once): no staleness threshold is
+  # involved, so the healthy worker can never look stale and the run must simply finish on it
+  plans.append(('announced death at call 2 of worker 2', {(1, 2): 'die'}, dict(call_timeout=0.0, threshold=1e7, announce=True)))
+  plans.append(('announced death at call 1 of worker 1', {(0, 1): 'die'}, dict(call_timeout=0.0, threshold=1e7, announce=True)))
   for j in range(4 if chk.tier == 'quick' else 40):
     p = {(rnd.choice([0, 1]), rnd.randint(1, 6)): rnd.choice(['deadline', 'response_lost']) for _ in range(rnd.choice([1, 2]))}
     plans.append((f'random #{j}', p, {}))
@@ -226,9 +230,21 @@ def as_completed_plans(chk, rnd):
       for (w, i), outcome in plan.items():
         c.plan(w, i, outcome)
       got = []
+      n_run = 8 if opts.get('announce') else n_tasks       # enough work left for the dead worker to be considered again
+      want = collections.Counter(lib.add100(10 * i) for i in range(n_run))
+      if opts.get('announce'):
+        def announcer():
+          t0 = time.time()
+          while time.time() - t0 < 20:
+            dead = [e[0] for e in list(fakecourier.BOARD.log) if e[3] == 'die']
+            if dead:
+              c.mods.courier_utils._worker_registry.unregister(dead[0])      # what the death notice does on arrival
+              return
+            time.sleep(0.002)
+        threading.Thread(target=announcer, daemon=True).start()
 
       def run():
-        tasks = (lazy_fns.trace(lib.add100)(10 * i) for i in range(n_tasks))
+        tasks = (lazy_fns.trace(lib.add100)(10 * i) for i in range(n_run))
         c.pool.wait_until_alive(deadline_secs=600, minimum_num_workers=2)    # as the documented use does
         for x in c.mods.orchestrate.as_completed(c.pool, tasks):
           got.append(x)
@@ -243,7 +259,7 @@ def as_completed_plans(chk, rnd):
       chk.violation('as_completed:hung', f'[{name}] no end within the deadline after {calls} calls; results so far {sorted(got)}', ctx)
       continue
     if status == 'raised':
-      if isinstance(val, TimeoutError) and 'die' in plan.values():
+      if isinstance(val, TimeoutError) and 'die' in plan.values() and not opts.get('announce'):
         # staleness is detected by (scaled) wall-clock time: under load the healthy worker may look stale for an
         # instant too and as_completed then gives up with an explicit TimeoutError - loud, not lost or doubled work
         chk.count('explicit_timeouts_in_death_scenarios')
